@@ -563,4 +563,20 @@ theorem swapEnd_file {s s' : State} (h : Inv s) (hs : step s .swapEnd = some s')
     rw [htake]
   · simp at hs
 
+theorem run_snoc {s s1 s' : State} {acts : List Act} {a : Act} (hr : run s acts = some s1)
+    (hs : step s1 a = some s') : run s (acts ++ [a]) = some s' := by
+  induction acts generalizing s with
+  | nil => simp [run] at hr; subst hr; simp [run, hs]
+  | cons b bs ih =>
+    simp only [run, List.cons_append] at hr ⊢
+    cases h2 : step s b with
+    | none => rw [h2] at hr; simp at hr
+    | some s2 => rw [h2] at hr; exact ih hr
+
+/-- one more accepted action keeps a state reachable -/
+theorem reachable_step {s s' : State} {a : Act} (h : Reachable s) (hs : step s a = some s') :
+    Reachable s' := by
+  obtain ⟨old, acts, hr⟩ := h
+  exact ⟨old, acts ++ [a], run_snoc hr hs⟩
+
 end Proofs.PackProto
